@@ -315,7 +315,7 @@ pub fn main(args: &Args) {
     if only.is_none() || args.get("fdx").is_some() {
         // process-wide (descriptor limit), hence after the sharded part, alone
         let mut r = Report::new();
-        for (rounds, in_shortage) in [(1usize, false), (4, true), (3, false)] {
+        for (rounds, in_shortage) in [(1usize, false), (7, true), (3, false)] {
             match start(2, "127.0.0.1") {
                 Ok(mut app) => shutlab::fd_exhaustion_scenario(&mut r, &mut app, rounds, in_shortage, &["c20".to_string(), "--fdx".into(), "1".into(), "--scenario".into(), "999999".into()]),
                 Err(e) => r.inconclusive(e),
